@@ -1,4 +1,5 @@
 """C07 - the bridge delivers each valid broadcast once, in order, whatever else arrives."""
+import asyncio
 import hashlib
 
 from hypothesis import strategies as st
@@ -114,6 +115,12 @@ async def run_history(case):
     sent = []
     await rig.start()
     try:
+        for _ in range(case.get("restarts", 0)):
+            # "a running bridge" includes one that was stopped and started again
+            await rig.bridge.stop()
+            await asyncio.sleep(0)
+            await asyncio.sleep(0)
+            await rig.bridge.start()
         built = []
         for i, d in enumerate(case["dgrams"]):
             if d["kind"] == "repeat" and built:
@@ -151,7 +158,8 @@ def body(rep, case, sub="histories"):
             valid_count += 1
         else:
             bad_seen.add(pi)
-    labels = sorted({f"has-{k}" for _, _, _, k in sent}) + [f"ports={case['ports']}"] + (["callback-raises"] if raise_on else [])
+    labels = sorted({f"has-{k}" for _, _, _, k in sent}) + [f"ports={case['ports']}"] + (["callback-raises"] if raise_on else []) + (
+        ["after-restart"] if case.get("restarts") else [])
     rep.tick(sub, key=[(pi, label, kind) for pi, label, tag, kind in sent] + [sorted(raise_on)], nontrivial=nt, sample=case, labels=labels)
     ports_of = {}
     for pi, label, tag, kind in sent:
@@ -162,7 +170,8 @@ def body(rep, case, sub="histories"):
     label_of = {tag: label for pi, label, tag, kind in sent if tag}
     if dead:
         bad = any(l != "valid" for _, l, _, _ in sent)
-        raise Violation("C07/delivery-stops/after-" + ("bad-datagram" if bad else "raising-callback" if raise_on else "valid-only"), case,
+        raise Violation("C07/delivery-stops/" + ("after-restart/" if case.get("restarts") else "") + "after-"
+                        + ("bad-datagram" if bad else "raising-callback" if raise_on else "valid-only"), case,
                         "closing sentinel delivered on every port", {"dead_port_indices": dead, "loop_errors": loop_errors[:3]})
     for t in tags:
         if t not in label_of:
@@ -225,9 +234,9 @@ def dgram(nports):
 
 def strat(nports):
     return lambda: st.builds(
-        lambda ds, ro: {"ports": nports, "dgrams": ds, "raise_on": sorted(set(ro))},
+        lambda ds, ro, rs: dict({"ports": nports, "dgrams": ds, "raise_on": sorted(set(ro))}, **({"restarts": rs} if rs else {})),
         st.one_of(st.lists(dgram(nports), min_size=1, max_size=60), st.lists(dgram(nports), min_size=12, max_size=60)),
-        st.one_of(st.just([]), st.lists(st.integers(0, 30), max_size=6)))
+        st.one_of(st.just([]), st.lists(st.integers(0, 30), max_size=6)), st.sampled_from([0, 0, 0, 0, 1, 2]))
 
 
 def subchecks(tier):
